@@ -330,6 +330,14 @@ func init() {
 		r := Ite(Slt(maxv, p), Const(64, 0x7fffffffffffffff), Ite(Slt(p, minv), Const(64, 0x8000000000000000), Extract(p, 63, 0)))
 		return ret(r)
 	})
+	// detrand.Bool is a deliberate nondeterminism source (output must be robust to it): fresh symbolic bool.
+	// (Not recorded in the replay vector: a counterexample that depends on it may not reproduce natively,
+	// in which case it is reported as an encoder disagreement, never as a violation.)
+	regIntrinsic("google.golang.org/protobuf/internal/detrand.Bool", func(w *Worker, st *State, f *Frame, x *ssa.Call, fv FuncV, a []Value) (Value, bool) {
+		b := st.fresh(8, "detrand")
+		st.assume(Ule(b, Const(8, 1)))
+		return ret(Eq(b, Const(8, 1)))
+	})
 	regIntrinsic(ndName("Thorough"), func(w *Worker, st *State, f *Frame, x *ssa.Call, fv FuncV, a []Value) (Value, bool) {
 		return ret(Bool(theTier == "thorough"))
 	})
